@@ -84,9 +84,7 @@ theorem commits_write {s : State} (h : Commits s) (c : Nat) (t : Bool) (p : Opti
           have := h.lt a ha
           show a.2 < o.version
           omega
-      · split
-        · exact h
-        · exact ⟨fun q hq => Nat.lt_succ_of_lt (h.lt q hq), h.incr⟩
+      · exact h
     · exact h
 
 theorem commits_step {s : State} (h : Commits s) (op : Op) : Commits (step s op).1 := by
@@ -162,23 +160,19 @@ theorem inv_reapply {s : State} (h : Inv s) (c : Nat) (ms : List Mod) : Inv (rea
 
 theorem inv_bump {s : State} (h : Inv s) (t : Nat) : Inv (bumpOp s t) := ⟨h.le, h.fresh, h.cur⟩
 
-/-- a write that did not end half-applied keeps the invariant and the fold -/
-theorem inv_write {s : State} {c0 : Content} (h : Inv s) (hf : Folded c0 s) (c : Nat) (t : Bool) (p : Option Nat)
-    (np : (writeOp s c t p).2 ≠ .conflictPartial) :
+/-- a write keeps the invariant and the fold (a failed write changes nothing, in both variants) -/
+theorem inv_write {s : State} {c0 : Content} (h : Inv s) (hf : Folded c0 s) (c : Nat) (t : Bool) (p : Option Nat) :
     Inv (writeOp s c t p).1 ∧ Folded c0 (writeOp s c t p).1 := by
-  unfold writeOp at np ⊢
+  unfold writeOp
   split
   · exact ⟨h, hf⟩
   · rename_i o ho
     have hm := getObj_mem ho
-    simp only [ho] at np
     split
     · rename_i hg
-      simp only [hg, if_true] at np
       simp only [Bool.and_eq_true, beq_iff_eq] at hg
       split
       rename_i rows mem okk hu
-      simp only [hu] at np
       split
       · refine ⟨?_, ?_⟩
         · constructor <;> intro q hq <;>
@@ -200,58 +194,41 @@ theorem inv_write {s : State} {c0 : Content} (h : Inv s) (hf : Folded c0 s) (c :
           simp only [Folded] at hf
           simp only [fold, List.foldl_append] at *
           rw [h1, h2, hf]
-      · rename_i hok
-        split
-        · exact ⟨h, hf⟩
-        · rename_i htx
-          simp [hok, htx] at np
+      · exact ⟨h, hf⟩
     · exact ⟨h, hf⟩
 
-theorem inv_step {s : State} {c0 : Content} (h : Inv s) (hf : Folded c0 s) (op : Op)
-    (np : (step s op).2 ≠ .conflictPartial) : Inv (step s op).1 ∧ Folded c0 (step s op).1 := by
+theorem folded_modify {s : State} {c0 : Content} (hf : Folded c0 s) (c : Nat) (m : Mod) : Folded c0 (modifyOp s c m) := by
+  show (modifyOp s c m).db.content = fold c0 (modifyOp s c m).log
+  unfold modifyOp
+  split
+  · exact hf
+  · dsimp only; split <;> exact hf
+
+theorem folded_reapply {c0 : Content} (c : Nat) : ∀ (ms : List Mod) (s : State), Folded c0 s → Folded c0 (reapply s c ms)
+  | [], _, h => h
+  | m :: ms, s, h => folded_reapply c ms _ (folded_modify h c m)
+
+theorem inv_step {s : State} {c0 : Content} (h : Inv s) (hf : Folded c0 s) (op : Op) :
+    Inv (step s op).1 ∧ Folded c0 (step s op).1 := by
   cases op with
   | read c => exact ⟨inv_read h c, hf⟩
-  | modify c m =>
-    refine ⟨inv_modify h c m, ?_⟩
-    show (modifyOp s c m).db.content = fold c0 (modifyOp s c m).log
-    unfold modifyOp
-    split
-    · exact hf
-    · dsimp only; split <;> exact hf
-  | write c t p => exact inv_write h hf c t p np
+  | modify c m => exact ⟨inv_modify h c m, folded_modify hf c m⟩
+  | write c t p => exact inv_write h hf c t p
   | retry c t p =>
-    simp only [step, retryOp] at np ⊢
+    simp only [step, retryOp]
     split
     · exact ⟨h, hf⟩
     · rename_i o ho
-      simp only [ho] at np
-      have h1 := inv_reapply (inv_read h c) c o.pend
-      have hf1 : Folded c0 (reapply (readOp s c) c o.pend) := by
-        have : ∀ (ms : List Mod) (s' : State), Folded c0 s' → Folded c0 (reapply s' c ms) := by
-          intro ms
-          induction ms with
-          | nil => intro s' h'; exact h'
-          | cons m ms ih =>
-            intro s' h'
-            apply ih
-            show (modifyOp s' c m).db.content = fold c0 (modifyOp s' c m).log
-            unfold modifyOp
-            split
-            · exact h'
-            · dsimp only; split <;> exact h'
-        exact this _ _ hf
-      exact inv_write h1 hf1 c t p np
+      exact inv_write (inv_reapply (inv_read h c) c o.pend) (folded_reapply c o.pend _ hf) c t p
   | bump t => exact ⟨inv_bump h t, hf⟩
 
-theorem inv_run {s : State} {c0 : Content} (h : Inv s) (hf : Folded c0 s) (ops : List Op)
-    (np : noPartial s ops = true) : Inv (run s ops) ∧ Folded c0 (run s ops) := by
+theorem inv_run {s : State} {c0 : Content} (h : Inv s) (hf : Folded c0 s) (ops : List Op) :
+    Inv (run s ops) ∧ Folded c0 (run s ops) := by
   induction ops generalizing s with
   | nil => exact ⟨h, hf⟩
   | cons o os ih =>
-    simp only [noPartial, Bool.and_eq_true, bne_iff_ne, ne_eq] at np
-    obtain ⟨h1, hf1⟩ := inv_step h hf o np.1
-    exact ih h1 hf1 np.2
-
+    obtain ⟨h1, hf1⟩ := inv_step h hf o
+    exact ih h1 hf1
 
 /-! ### task rows: unique ids, and when the upsert loop cannot fail -/
 
@@ -608,14 +585,7 @@ theorem dbT_write {s : State} (h : DbT s) (c : Nat) (t : Bool) (p : Option Nat) 
             (o := { o with version := o.version + 1, tasks := mem, base := o.cur, pend := [] }) hq with rfl | ⟨hm', _⟩
         · rw [e2] at ht'; exact memLt t' ht'
         · exact h.olt q hm' t' ht'
-      · split
-        · exact h
-        · refine ⟨by rw [e1]; exact u1, by rw [e1]; exact rowsLt, ?_⟩
-          intro q hq t' ht'
-          rcases mem_setObj (s := s) (c := c)
-              (o := { o with version := o.version + 1, tasks := mem }) hq with rfl | ⟨hm', _⟩
-          · rw [e2] at ht'; exact memLt t' ht'
-          · exact h.olt q hm' t' ht'
+      · exact h
     · exact h
 
 theorem dbT_step {s : State} (h : DbT s) (op : Op) : DbT (step s op).1 := by
@@ -676,7 +646,7 @@ theorem writeOp_ok_spec {s : State} {c : Nat} {t : Bool} {p : Option Nat} (ok : 
           simp only [if_true]
           simp only [Bool.and_eq_true, beq_iff_eq] at hg
           exact ⟨o, rfl, hg.1, trivial, fun c' hc' => getObj_setObj_other s c c' _ hc'⟩
-        | false => cases t <;> simp at ok
+        | false => simp at ok
     · simp [hg] at ok
 
 end Stab.CasRow
